@@ -37,7 +37,8 @@ def cases(draw, tier):
         kind = "diag"
     case = {"fn": fn, "kind": kind, "m": m, "n": n, "cplx": draw(st.booleans()), "seed": draw(st.integers(0, 10**6)),
             "k": draw(st.integers(1, min(m, n))), "alg": draw(st.sampled_from(SVD_ALGS if fn == "svd" else PINV_ALGS)),
-            "ncol": draw(st.sampled_from([0, 0, 2])), "tol_exp": draw(st.sampled_from([-10, -8, -6]))}
+            "ncol": draw(st.sampled_from([0, 0, 2])), "tol_exp": draw(st.sampled_from([-10, -8, -6])),
+            "bdt": draw(st.sampled_from(["same", "same", "complex", "f32op"]))}
     return case
 
 
@@ -143,6 +144,15 @@ def check(case, out):
     rng = np.random.default_rng(case["seed"] + 3)
     shape = (m, ) if case["ncol"] == 0 else (m, case["ncol"])
     b = rng.standard_normal(shape) + (1j * rng.standard_normal(shape) if np.iscomplexobj(M) else 0)
+    bdt = case.get("bdt", "same")
+    if bdt == "complex" and not np.iscomplexobj(M):  # complex right-hand side for a real operator
+        b = b + 1j * rng.standard_normal(shape)
+        out.label("rhs:complex_for_real_operator")
+    if bdt == "f32op" and case["kind"] == "dense" and not np.iscomplexobj(M) and case["alg"] != "CG":
+        # float32 operator, float64 right-hand side: the solve has to run in the promoted (double) precision
+        M = M.astype(np.float32).astype(np.float64)
+        A = cola.ops.Dense(M.astype(np.float32))
+        out.label("rhs:f64_for_f32_operator")
     try:
         x = np.asarray(L.pinv(A, *([alg] if alg is not None else [])) @ b)
     except Exception as e:
